@@ -13,7 +13,7 @@ LEVEL = "exploration"
 RULE = (
     "Generated elections (as C01) with the hard cases forced: nonreporting units whose partial count is 3-40x the "
     "final count, strongly negative swings, tiny calibration spreads (gaussian aggregate bounds below partial "
-    "counts), 100% reporting, groups without nonreporting units. Oracle: every unit/group pred, lower, upper >= "
+    "counts), 100% reporting, groups without nonreporting units, outstanding units without counted votes for which the regression extrapolates below -100 %. Oracle: every unit/group pred, lower, upper >= "
     "counted votes, finite whole numbers; reporting/unexpected/non-modelled units pred = lower = upper = counted; "
     "groups without nonreporting units have zero width at the counted votes; bootstrap reporting/unexpected units "
     "carry results_margin in all three columns. Non-trivial: a nonreporting unit whose prediction or bound equals its "
@@ -30,7 +30,7 @@ def parts(tier):
 
 @gen.st.composite
 def _strategy(draw):
-    mode = draw(gen.st.integers(0, 6))
+    mode = draw(gen.st.integers(0, 7))
     hard = tuple([gen.NH] * 6 + [gen.N, gen.N0, gen.A, gen.Z, gen.B, gen.BN, gen.BN, gen.ZN, gen.T_HI])
     sbo = 3  # blocklisted states (together with unit blocklists) in a third of the multi-state elections
     if mode == 0:  # everything reports
@@ -46,6 +46,21 @@ def _strategy(draw):
             )
         )
         case["req"]["mp"].pop("winsorize", None)
+    elif mode == 7:
+        # the regression extrapolates below -100 %: the change depends strongly on the covariate and outstanding units
+        # without any counted vote sit far out on it, so only the floor keeps their prediction at or above 0
+        case = draw(gen.election_case(estimators=("nonparametric", "gaussian"), statuses=(gen.N0, gen.N0, gen.N, gen.NH, gen.A), min_nonrep=2, allow_fe=False, outliers=(False,), state_blocklist_odds=sbo))
+        case["req"]["features"] = ["x1"]
+        far = 0
+        for u in case["units"]:
+            f = u.get("feed")
+            if u["status"] in (gen.R, gen.RB) and f is not None:
+                u["x1"] = max(-1.8, min(1.8, u["x1"]))
+                k = 1 + 0.25 * u["x1"]
+                f.update(rd=int(u["bd"] * k), rg=int(u["bg"] * k), ro=int(u["bo"] * k))
+            elif u["status"] == gen.N0 and far < 3:
+                u["x1"] = -6.0 - far
+                far += 1
     elif mode == 3:
         case = draw(gen.election_case(statuses=hard, min_nonrep=2, swing_scale=2.0, state_blocklist_odds=sbo))
     else:
